@@ -4,8 +4,10 @@ mod c01;
 mod c02;
 mod c03;
 mod c04;
+mod c06;
 mod c13;
 mod c15;
+mod cli;
 mod evidence;
 mod impl_;
 mod mre;
@@ -50,6 +52,21 @@ fn main() {
         }
         return;
     }
+    if id == "cli" {
+        let a: Vec<String> = args[2..].to_vec();
+        let mut inp = String::new();
+        if a.iter().any(|x| x == "--stdin") {
+            use std::io::Read;
+            std::io::stdin().read_to_string(&mut inp).ok();
+        }
+        let a: Vec<String> = a.into_iter().filter(|x| x != "--stdin").collect();
+        let o = cli::cli_inproc(&a, &inp);
+        println!("code={:?} status={} panic={:?}\n--stdout--\n{}--stderr--\n{}", o.code, o.status(), o.panic, o.out, o.err);
+        let p = cli::cli_proc(&a, &inp, &[], None, 5000);
+        println!("proc status={}\n--stdout--\n{}--stderr--\n{}", p.status, p.out, p.err);
+        cli::cleanup_workdirs();
+        return;
+    }
     if id == "eval" {
         let rules = std::fs::read_to_string(&args[2]).unwrap();
         let data = std::fs::read_to_string(&args[3]).unwrap();
@@ -67,6 +84,7 @@ fn main() {
         "C02" => c02::run(&tier),
         "C03" => c03::run(&tier),
         "C04" => c04::run(&tier),
+        "C06" => c06::run(&tier),
         "C13" => c13::run(&tier),
         "C15" => c15::run(&tier),
         _ => {
